@@ -156,7 +156,8 @@ def _run_case(case, ctx):
         elif form == "list-holes":
             k = int(rs.randint(1, order))
             sel = sorted(rs.choice(order, size=k, replace=False).tolist())
-            ps = [p if m in sel else None for m in range(order)]
+            hole = gen.choice(rs, [None, None, False, 0])    # every spelling of "this mode is not concerned"
+            ps = [p if m in sel else hole for m in range(order)]
             kw = {kind: ps}
             per_mode = {m: (kind, p) for m in sel}
         else:
@@ -176,7 +177,7 @@ def _run_case(case, ctx):
             if form == "dict":
                 kw[kd] = {m: p}
             else:
-                lst = [None] * order
+                lst = [gen.choice(rs, [None, None, False, 0])] * order
                 lst[m] = p
                 kw[kd] = lst
     fixed = []
